@@ -256,7 +256,10 @@ pub fn ecdsa_sig_to_der_b64(sig_b64: &str) -> Option<String> {
 /// ASCII-only inputs never notice.
 pub fn boundary_text(r: &mut crate::rng::Rng) -> String {
     const ASCII: &str = "ES256https://a.example/none";
-    const WIDE: [char; 9] = ['\u{e9}', '\u{17f}', '\u{b2}', '\u{20ac}', '\u{2026}', '\u{ffff}', '\u{1f600}', '\u{10000}', '\u{10ffff}'];
+    // (the second row: characters whose upper- / lower-case mapping has another UTF-8 length or is several
+    // characters — KELVIN SIGN, dotted capital I, capital sharp s, ANGSTROM SIGN, sharp s, n-apostrophe, ff ligature)
+    const WIDE: [char; 17] = ['\u{e9}', '\u{17f}', '\u{b2}', '\u{20ac}', '\u{2026}', '\u{ffff}', '\u{1f600}', '\u{10000}', '\u{10ffff}',
+        '\u{212a}', '\u{130}', '\u{1e9e}', '\u{212b}', '\u{df}', '\u{149}', '\u{fb00}', '\u{1f0}'];
     const MARK: [&str; 10] = ["", "%", "\\", "&", "+", ":", "/", ".", "=", "~"];
     let start = r.below(20) as usize;
     let pre = r.below(9) as usize;
@@ -270,5 +273,12 @@ pub fn boundary_text(r: &mut crate::rng::Rng) -> String {
     }
     let post = r.below(5) as usize;
     s.extend(ASCII.chars().skip(2).take(post));
+    // now and then inside the prefixes / suffixes that parsers of media types, hash names and URIs look for
+    match r.below(10) {
+        0 => s.push_str(*r.pick(&["+sd-jwt", "+jwt", "+SD-JWT", "/json", "-256", "://x", "=="])),
+        1 => s = format!("{}{s}", *r.pick(&["application/", "sha-", "urn:", "Bearer ", "did:"])),
+        2 => s = format!("{}{s}{}", *r.pick(&["application/", "APPLICATION/"]), *r.pick(&["+sd-jwt", "+jwt"])),
+        _ => {}
+    }
     s
 }
